@@ -634,6 +634,9 @@ pub fn check_table(
         let (s, r) = queue[qi];
         qi += 1;
         acc.states += 1;
+        if qi % 64 == 0 {
+            util::tick_progress();
+        }
         for &c in &mapped {
             acc.transitions += 1;
             let code = it.code(c).unwrap();
